@@ -481,6 +481,41 @@ def _sketch(node):
 
 # ============================================================================================ classes
 
+def _fingerprints(idxs, prefix):
+    """labels for index collections that look alike to a shortcut (same length / endpoints / prefix / nesting) without being equal"""
+    out = []
+    if len(idxs) < 2:
+        return out
+    allsame = all(i == idxs[0] for i in idxs)
+    nonempty = all(len(i) for i in idxs)
+    samelen = len(set(len(i) for i in idxs)) == 1
+    sameends = nonempty and len(set((i[0], i[-1]) for i in idxs)) == 1
+    if allsame:
+        out.append('all_equal')
+    if not allsame and samelen and sameends and len(idxs[0]) >= 3:
+        out.append('same_span_same_length_different_interior')
+    if not allsame and samelen and nonempty:
+        out.append('same_length_different_stamps')
+    if not samelen and sameends:
+        out.append('same_endpoints_different_length')
+    if not allsame and nonempty and len(set(i[0] for i in idxs)) == 1 and len(set(tuple(i[:2]) for i in idxs)) == 1 and min(len(i) for i in idxs) >= 2:
+        out.append('same_first_two_stamps')
+    if not allsame and nonempty and len(set(tuple(i[-2:]) for i in idxs)) == 1 and min(len(i) for i in idxs) >= 2:
+        out.append('same_last_two_stamps')
+    srt = sorted(idxs, key=len)
+    if not allsame and nonempty and all(set(a) < set(b) or a == b for a, b in zip(srt[:-1], srt[1:])):
+        out.append('nested_chain')
+    pair = False
+    for i in range(len(idxs)):
+        for j in range(i + 1, len(idxs)):
+            a, b = idxs[i], idxs[j]
+            if len(a) == len(b) >= 3 and a != b and a[0] == b[0] and a[-1] == b[-1]:
+                pair = True
+    if pair:
+        out.append('pair_same_span_same_length_different_interior')
+    return [prefix + c for c in out]
+
+
 def _classes(spec, leaves, target, ctx):
     idxs = [l[1] for l in leaves]
     cls = ['call=' + spec['call'], 'join=' + _jkind(spec['join']), 'method=%s' % spec['method']]
@@ -500,6 +535,10 @@ def _classes(spec, leaves, target, ctx):
                 disjoint = True
             elif a and b and not (a <= b or b <= a):
                 partial = True
+    cls += _fingerprints(idxs, '')
+    if isinstance(spec['join'], list) and spec['join'][0] in ('idx', 'series'):
+        for i in idxs:
+            cls += [c for c in _fingerprints([i, list(spec['join'][1])], 'vs_target:') if c not in cls]
     if partial:
         cls.append('partial_overlap')
     if disjoint:
@@ -519,6 +558,8 @@ def _classes(spec, leaves, target, ctx):
         cls.append('non_timeseries_member')
     if ctx is not None and ctx.filled:
         cls.append('as_of_filled_cell')
+    if 'same_span_same_length_different_interior' in cls and _jkind(spec['join']) in ('i', 'o'):
+        cls.append('twins_under_ij_oj')
     nt = len(idxs) >= 2 and (partial or disjoint) or bool(ctx is not None and ctx.filled)
     return dict(nt=bool(nt), cls=cls)
 
@@ -824,18 +865,99 @@ def _val(k, j, p):
     return float((k + 1) * 100 + j * 30 + p) + (0.5 if p % 2 else 0.0)
 
 
+FAMILIES = ['twin', 'same_len', 'same_ends', 'prefix', 'suffix', 'subset', 'superset', 'copy']
+
+
+def _derive(draw, base, kind):
+    """
+    an index that shares a "fast-path fingerprint" with `base` (what a shortcut in the code under test might look at instead of the stamps):
+    twin = same length, same first and last stamp, different interior; same_len = same length, other stamps; same_ends = same first/last,
+    different length; prefix / suffix = same first / last k stamps, then different; subset / superset = nested; copy = equal.
+    Falls back to the nearest feasible kind when `base` is too short / leaves no room.
+    """
+    n = len(base)
+    if kind == 'twin' or kind == 'same_ends':
+        if n >= 2:
+            first, last = base[0], base[-1]
+            cands = list(range(first + 1, last))
+            inner = base[1:-1]
+            if kind == 'twin' and n >= 3 and len(cands) > len(inner):
+                pick = sorted(list(draw(st.permutations(cands)))[:len(inner)])
+                if pick == inner:
+                    unused = [c for c in cands if c not in inner]
+                    pick = sorted(inner[1:] + [unused[draw(st.integers(0, len(unused) - 1))]])
+                return [first] + pick + [last]
+            if cands:
+                sizes = [m for m in range(len(cands) + 1) if m != len(inner)]
+                m = sizes[draw(st.integers(0, len(sizes) - 1))]
+                return [first] + sorted(list(draw(st.permutations(cands)))[:m]) + [last]
+        kind = 'same_len'
+    if kind == 'same_len':
+        if 1 <= n < N:
+            pick = sorted(list(draw(st.permutations(list(range(N)))))[:n])
+            if pick == base:
+                unused = [c for c in range(N) if c not in base]
+                pick = sorted(base[1:] + [unused[0]])
+            return pick
+        kind = 'subset'
+    if kind == 'prefix':
+        if n >= 2:
+            k = draw(st.integers(1, n - 1))
+            rest = [c for c in range(base[k - 1] + 1, N) if c != base[k]]
+            m = draw(st.integers(0, min(len(rest), n - k + 1)))
+            return base[:k] + sorted(list(draw(st.permutations(rest)))[:m]) if rest else base[:k]
+        kind = 'superset'
+    if kind == 'suffix':
+        if n >= 2:
+            k = draw(st.integers(1, n - 1))
+            rest = [c for c in range(0, base[n - k]) if c != base[n - k - 1]]
+            m = draw(st.integers(0, min(len(rest), n - k + 1)))
+            return (sorted(list(draw(st.permutations(rest)))[:m]) if rest else []) + base[n - k:]
+        kind = 'superset'
+    if kind == 'subset':
+        if n >= 2:
+            m = draw(st.integers(1, n - 1))
+            keep = sorted(list(draw(st.permutations(list(range(n)))))[:m])
+            return [base[i] for i in keep]
+        kind = 'superset'
+    if kind == 'superset':
+        unused = [c for c in range(N) if c not in base]
+        if unused:
+            m = draw(st.integers(1, len(unused)))
+            return sorted(base + list(draw(st.permutations(unused)))[:m])
+    return list(base)
+
+
 @st.composite
-def _idx(draw, prev):
-    r = draw(st.integers(0, 15))
+def _free_idx(draw):
+    r = draw(st.integers(0, 12))
     if r == 0:
         return []
     if r <= 6:
         a = draw(st.integers(0, N - 1))
         b = draw(st.integers(a + 1, N))
         return list(range(a, b))
-    if r <= 12 or not prev:
-        return sorted(draw(st.lists(st.integers(0, N - 1), unique=True, min_size=1, max_size=N)))
-    return list(prev[draw(st.integers(0, len(prev) - 1))])
+    return sorted(draw(st.lists(st.integers(0, N - 1), unique=True, min_size=1, max_size=N)))
+
+
+@st.composite
+def _idx(draw, state):
+    """state['family'] = None: free indices, now and then derived from an earlier one; else EVERY index of the case is derived from the first"""
+    prev, fam = state['prev'], state.get('family')
+    if fam is not None:
+        if not prev:
+            # a base with at least 3 stamps and room between its endpoints, so that every family kind is feasible
+            base = sorted(draw(st.lists(st.integers(0, N - 1), unique=True, min_size=4, max_size=8)))
+            if base[-1] - base[0] + 1 == len(base):
+                base = base[:1] + base[2:]
+            return base
+        return _derive(draw, prev[0], fam)
+    if prev and draw(st.integers(0, 3)) == 0:
+        return _derive(draw, prev[draw(st.integers(0, len(prev) - 1))], draw(st.sampled_from(FAMILIES)))
+    return draw(_free_idx())
+
+
+_family = st.sampled_from([None] * 6 + ['twin', 'twin', 'twin', 'same_len', 'same_ends', 'prefix', 'suffix', 'subset', 'superset'])
 
 
 def _mask(draw, n, mode):
@@ -850,7 +972,7 @@ def _mask(draw, n, mode):
 def _ts_leaf(draw, state, kinds):
     k = state['k']
     state['k'] += 1
-    idx = draw(_idx(state['prev']))
+    idx = draw(_idx(state))
     state['prev'].append(idx)
     n = len(idx)
     kind = draw(st.sampled_from(kinds))
@@ -865,7 +987,7 @@ def _ts_leaf(draw, state, kinds):
         m = _mask(draw, n, draw(st.sampled_from(['some', 'some', 'none'])))
         return ['f', idx, [name], [[None if m[i] else _val(k, 0, p)] for i, p in enumerate(idx)]]
     ncols = draw(st.integers(2, 3))
-    cols = list(draw(st.one_of(st.sampled_from([['a', 'b'], ['b', 'a'], ['a', 'b', 'c'], ['b', 'c'], ['c', 'd'], ['b', 'c', 'd']]),
+    cols = list(draw(st.one_of(st.sampled_from([['a', 'b'], ['b', 'a'], ['a', 'b', 'c'], ['b', 'c'], ['c', 'd'], ['b', 'c', 'd'], ['a', 'b', 'd'], ['a', 'c', 'd']]),
                                st.permutations(_COLS).map(lambda c: list(c)[:ncols]))))
     mode = draw(st.sampled_from(['rows', 'cells', 'cells', 'none']))
     if mode == 'rows':
@@ -930,14 +1052,23 @@ def _join(draw, explicit=True):
 _ALL = ['s', 's', 's', 'f', 'f', 'f1']
 
 
+def _target_like_first(draw, state, tree, join):
+    """in a family case half of the explicit targets share the family fingerprint with the first timeseries (same length and endpoints, nested, ...)"""
+    leaves = _ts_leaves(tree)
+    if state.get('family') and isinstance(join, list) and join[0] in ('idx', 'series') and leaves and draw(st.booleans()):
+        return [join[0], _derive(draw, leaves[0][1], state['family'])]
+    return join
+
+
 @st.composite
 def _sync_case(draw):
     fn = draw(st.sampled_from(['df_sync', 'df_sync', 'df_sync', 'df_reindex', 'df_reindex', 'df_index']))
     join = draw(_join())
     method = draw(st.sampled_from(METHODS))
-    state = dict(k=0, prev=[])
+    state = dict(k=0, prev=[], family=draw(_family))
     types = ['list', 'list', 'dict', 'dict', 'Dict'] + (['tuple'] if fn == 'df_sync' else [])
     tree = draw(_container(state, 1, 3, _ALL, _ts_leaf, types, 1, 4))
+    join = _target_like_first(draw, state, tree, join)
     spec = dict(call=fn, tree=tree, join=join, method=method)
     if fn == 'df_sync':
         spec['columns'] = draw(st.sampled_from(['ij', 'ij', 'inner', 'oj', 'outer', 'lj', 'rj', None, False]))
@@ -946,10 +1077,15 @@ def _sync_case(draw):
 
 @st.composite
 def _asof_case(draw):
-    state = dict(k=0, prev=[])
+    fam = draw(_family)
+    state = dict(k=0, prev=[], family=fam)
     leaf = draw(_ts_leaf(state, _ALL))
-    join = draw(st.one_of(_positions().map(lambda p: ['idx', p]), _positions().map(lambda p: ['idx', p]),
-                          _positions().map(lambda p: ['series', p]), st.sampled_from(['ij', 'oj'])))
+    if fam is not None:
+        # the explicit target shares a fingerprint with the object's own index (same length and endpoints, same prefix, nested, ...)
+        join = [draw(st.sampled_from(['idx', 'idx', 'series'])), _derive(draw, leaf[1], fam)]
+    else:
+        join = draw(st.one_of(_positions().map(lambda p: ['idx', p]), _positions().map(lambda p: ['idx', p]),
+                              _positions().map(lambda p: ['series', p]), st.sampled_from(['ij', 'oj'])))
     return _repair(dict(call='df_reindex', tree=leaf, join=join, method=draw(st.sampled_from(['ffill', 'bfill']))))
 
 
@@ -958,7 +1094,7 @@ def _presync_case(draw, frames_in_col_mode=False):
     how = draw(st.sampled_from(['ctor', 'call', 'prop']))
     join = draw(_join(explicit=how != 'prop'))
     method = draw(st.sampled_from(METHODS))
-    state = dict(k=0, prev=[])
+    state = dict(k=0, prev=[], family=draw(_family))
     if frames_in_col_mode:
         raw = False
         kinds = ['s', 'f', 'f', 'f', 'f1']
@@ -969,6 +1105,7 @@ def _presync_case(draw, frames_in_col_mode=False):
         columns = False if raw else draw(st.sampled_from(['inner', 'ij', 'oj']))
     tree = draw(_container(state, 1, 3, kinds, _ts_leaf, ['list'], 1, 4))
     kids = tree[1]
+    join = _target_like_first(draw, state, tree, join)
     single = [i for i, c in enumerate(kids) if c[0] in ('s', 'f')]
     if how != 'prop' and single and draw(st.integers(0, 5)) == 0:
         join = ['arg', single[draw(st.integers(0, len(single) - 1))]]
@@ -1011,7 +1148,7 @@ def _arrays_case(draw, maxlen=6):
 # ============================================================================================ registration
 
 _RULE_TS = ('timeseries = float Series (NaN sprinkled / none / all NaN), int Series, frames with 2-3 columns out of a,b,c,d (NaN by row, by cell, none) and '
-            'single-column frames, each on a sorted subset (contiguous run, arbitrary subset, empty, or copy of an earlier index) of a 12-stamp irregular axis, '
+            'single-column frames, each on a sorted subset (contiguous run, arbitrary subset, empty, or derived from an earlier index) of a 12-stamp irregular axis; in ~60% of the cases EVERY index derives from the first one by one fast-path fingerprint (twin = same length, same first/last stamp, different interior; same length; same endpoints; same first/last k stamps; proper subset / superset; copy), and explicit targets share it half of the time; '
             'cell values unique per object/column/stamp; ')
 
 SUBS = [
@@ -1022,21 +1159,28 @@ SUBS = [
              'non-timeseries members, inputs unchanged. non-trivial = two timeseries with partially overlapping or disjoint indices, or a cell actually '
              'filled from another stamp',
         floor=0.3, class_floors={'depth>=2': 0.15, 'empty_intersection': 0.01, 'empty_series': 0.05, 'frames_differing_columns': 0.03,
-                                 'as_of_filled_cell': 0.1, 'join=l': 0.04, 'join=r': 0.04, 'join=idx': 0.05, 'join=series': 0.05, 'join=i': 0.04, 'join=o': 0.04}),
+                                 'as_of_filled_cell': 0.1, 'join=l': 0.04, 'join=r': 0.04, 'join=idx': 0.05, 'join=series': 0.05, 'join=i': 0.04, 'join=o': 0.04,
+                                 'same_span_same_length_different_interior': 0.04, 'twins_under_ij_oj': 0.01, 'same_length_different_stamps': 0.04,
+                                 'same_endpoints_different_length': 0.03, 'nested_chain': 0.03, 'same_first_two_stamps': 0.03, 'same_last_two_stamps': 0.02,
+                                 'all_equal': 0.005}),
     Sub('asof', lambda tier: _asof_case(), run_sync, quick=1600, thorough=12000,
         rule=_RULE_TS + 'one bare object, df_reindex(obj, explicit DatetimeIndex / Series as index / ij / oj, method) with method mostly ffill/bfill; '
              'same oracle. non-trivial = a cell filled from another stamp',
-        floor=0.1, class_floors={'method=ffill': 0.15, 'method=bfill': 0.15, 'multi_column_frame': 0.1, 'as_of_filled_cell': 0.1}),
+        floor=0.1, class_floors={'method=ffill': 0.15, 'method=bfill': 0.15, 'multi_column_frame': 0.1, 'as_of_filled_cell': 0.1,
+                                  'vs_target:same_span_same_length_different_interior': 0.05, 'vs_target:nested_chain': 0.1,
+                                  'vs_target:same_length_different_stamps': 0.05, 'vs_target:same_endpoints_different_length': 0.03}),
     Sub('presync', lambda tier: _presync_case(), run_presync, quick=1200, thorough=8000,
         rule=_RULE_TS + 'f(p0..p3) returns its arguments; 1-4 arguments (each a leaf or a tree to depth 2) passed positionally / by keyword / mixed; '
              'presync configured by constructor, by properties (.oj.ffill), by call-time join=/method=, or index="p<i>"; columns=False with any tree, '
              'default column mode with Series-only trees. Same oracle on what f receives. non-trivial as in sync',
-        floor=0.3, class_floors={'mixed_positional_keyword': 0.1, 'mode=raw': 0.2, 'mode=cols': 0.2, 'how=prop': 0.1, 'how=call': 0.1, 'join=arg': 0.02}),
+        floor=0.3, class_floors={'mixed_positional_keyword': 0.1, 'mode=raw': 0.2, 'mode=cols': 0.2, 'how=prop': 0.1, 'how=call': 0.1, 'join=arg': 0.02,
+                                  'same_span_same_length_different_interior': 0.02, 'twins_under_ij_oj': 0.005, 'same_length_different_stamps': 0.04, 'nested_chain': 0.03}),
     Sub('presync_cols', lambda tier: _presync_case(True), run_presync_cols, quick=1000, thorough=6000,
         rule=_RULE_TS + 'default column mode with frames among the arguments: f records every call; expected one call per common column (the shared columns '
              'when all multi-column frames agree, else the ij/oj/lj/rj column set), each call seeing every multi-column frame as that column (Series on the '
              'common index, as-of filled) or NaN when the frame lacks it, single-column frames as their column, Series aligned, the rest identical',
-        floor=0.3, class_floors={'frames_differing_columns': 0.1, 'all_frames_same_columns': 0.1}),
+        floor=0.3, class_floors={'frames_differing_columns': 0.1, 'all_frames_same_columns': 0.1,
+                                  'same_span_same_length_different_interior': 0.04, 'twins_under_ij_oj': 0.01, 'same_length_different_stamps': 0.04, 'nested_chain': 0.03}),
     Sub('arrays', lambda tier: _arrays_case(6 if tier == 'quick' else 9), run_arrays, quick=2000, thorough=12000,
         rule='trees (depth <= 3) of bare numpy arrays: 1-d and 2-d (1-3 columns), 0-6 rows (0-9 thorough), float64 with NaN / int64, mixed with scalars; '
              'df_sync / df_reindex / df_index / presync(columns=False) with ij,oj,lj,rj and method None/ffill/bfill. Oracle: common length = min/max/first/last, '
